@@ -483,7 +483,10 @@ def gen_scenario(rng, chars):
         headers[h] = {'k': rng.randrange(1, 1000), 'inc': inc}
         order.append(h)
     sources = {}
-    for i in range(rng.randint(2, 5)):
+    # now and then a project with some fifty translation units (whatever
+    # handles long lists in batches has to get the batches right)
+    n_src = rng.randint(2, 5) if rng.random() > 0.05 else rng.randint(48, 64)
+    for i in range(n_src):
         stem = rng.choice(G.NAMES)
         if ' ' in chars and rng.random() < 0.15:
             stem = stem[:3] + ' ' + stem[3:]     # bfg9000 supports blanks
@@ -572,6 +575,7 @@ PARAMS = {
 EVIDENCE = {
     'level': 'exploration',
     'rule': ('one case = one generated C project (2-5 translation units, '
+             '5% of the cases 48-64, '
              '3-8 headers in a random include DAG, optional static/shared '
              'library, sources listed or discovered by find_files) built '
              'with the real gcc/ar/ld, + a history of 3-12 edits (modify '
